@@ -147,14 +147,30 @@ def finish(prop, tier, results, t0, level='proof', checker_cmd=None, functions=N
                     violations.append(r)
             else:
                 undecided.append(r); total -= 1
-    # missing baseline obligations (a function that no longer yields the obligation at all)
+    # baseline obligations that are no longer generated at all (the function left the analysable subset, or a
+    # contract clause no longer binds): previously proved, now not discharged -> violation without a failing input
     missing = []
     seen_oids = set(r.get('oid') for r in results)
-    for key, info in baseline.items():
-        if info.get('tier', 'quick') == 'thorough' and tier == 'quick':
-            continue
-        if key not in seen_oids:
-            missing.append(key)
+    only_filter = os.environ.get('PVC_ONLY_FILTER')
+    if not only_filter:
+        for key, info in baseline.items():
+            if info.get('tier', 'quick') == 'thorough' and tier == 'quick':
+                continue
+            if key not in seen_oids:
+                missing.append(key)
+    if os.environ.get('PVC_DUMP_PROVED'):
+        with open(os.environ['PVC_DUMP_PROVED'], 'w') as fh:
+            json.dump(sorted(r['oid'] for r in results if r.get('status') == 'proved' and (r.get('seconds') or 0) < 5.0), fh)
+    by_fn = {}
+    for key in missing:
+        by_fn.setdefault(key.split('#')[0], []).append(key)
+    for fn, keys in by_fn.items():
+        reason = '; '.join(sorted(set((r.get('reason') or '')[:200] for r in undecided if r.get('oid', '').startswith(fn))))[:600]
+        r = {'oid': keys[0], 'status': 'unknown', 'no_input': True, 'reason': 'obligation(s) proved on the pinned tree are no longer generated/discharged for %s: %s' % (fn, reason or 'function changed shape'),
+             'also_missing': keys[1:40]}
+        f = match_known(known, r)
+        if f: known_seen.setdefault(f['id'], (f, []))[1].append(r)
+        else: violations.append(r)
     if len(samples) < 2:
         for r in results:
             if r.get('status') == 'proved' and len(samples) < 3:
